@@ -37,14 +37,26 @@ type probe struct {
 
 	curOp         evm.OpCode // the operation being executed (the last one traced)
 	curSet        bool
-	firstID       int  // id of the first snapshot of the run (the outermost frame's)
-	firstReverted bool // ... and whether it was reverted
+	pending       []pendingTrim
+	ghostRecords  int    // observation (not judged): balance records of a reverted nested frame that survive in EVM.GetOTxs()
+	ghostOpener   string // what opened the first such frame
+	firstID       int    // id of the first snapshot of the run (the outermost frame's)
+	firstReverted bool   // ... and whether it was reverted
 }
 
 type snapRec struct {
-	id    int
-	depth int // depth of the frame this snapshot protects
-	d     *delta
+	id     int
+	depth  int // depth of the frame this snapshot protects
+	d      *delta
+	otxLen int // number of balance records when the snapshot was taken
+}
+
+// pendingTrim: a nested frame was reverted; when its caller continues, the balance records the frame emitted
+// should be gone as well (observation only, see ghostRecords).
+type pendingTrim struct {
+	depth  int
+	otxLen int
+	opener string
 }
 
 func newProbe(st, ref *state.StateDB, budget uint64) *probe {
@@ -77,7 +89,7 @@ func (p *probe) Snapshot() int {
 	if p.nsnap == 1 {
 		p.firstID = id
 	}
-	rec := snapRec{id: id, depth: p.vm.VerifDepth() + 1}
+	rec := snapRec{id: id, depth: p.vm.VerifDepth() + 1, otxLen: len(p.vm.GetOTxs())}
 	if rec.depth > p.maxDepth {
 		p.maxDepth = rec.depth
 	}
@@ -111,6 +123,9 @@ func (p *probe) RevertToSnapshot(id int) {
 	rec := p.recs[idx]
 	p.recs = p.recs[:idx]
 	delete(p.failed, rec.depth)
+	if rec.depth > 1 {
+		p.pending = append(p.pending, pendingTrim{rec.depth, rec.otxLen, p.opener(rec.depth)})
+	}
 	if rec.d == nil {
 		return
 	}
@@ -168,6 +183,23 @@ func (p *probe) resumeAt(d int) {
 	}
 	for len(p.recs) > 0 && p.recs[len(p.recs)-1].depth > d {
 		p.recs = p.recs[:len(p.recs)-1]
+	}
+	if len(p.pending) > 0 {
+		keep := p.pending[:0]
+		n := len(p.vm.GetOTxs())
+		for _, t := range p.pending {
+			if t.depth <= d {
+				keep = append(keep, t)
+				continue
+			}
+			if n > t.otxLen {
+				if p.ghostRecords == 0 {
+					p.ghostOpener = t.opener
+				}
+				p.ghostRecords++
+			}
+		}
+		p.pending = keep
 	}
 }
 
